@@ -10,7 +10,7 @@ THEOREMS = [
     "Sb.C20.view_cannot_resize", "Sb.C20.view_cannot_grow", "Sb.C20.append_contents", "Sb.C20.resize_smaller", "Sb.C20.resize_contents", "Sb.C20.fill_size",
     "Sb.C20.rgbw_min_subtraction", "Sb.C20.interval_never_inverted", "Sb.C20.interval_collapses",
     "Sb.C20.code_cruise_expression", "Sb.C20.profile_continuous_at_boundary", "Sb.C20.profile_monotone",
-            "Sb.C20.lerp_zero", "Sb.C20.lerp_one", "Sb.C20.lerp_between", "Sb.C20.rgbw_reference_le", "Sb.C20.refParams_div_nonneg",
+            "Sb.C20.lerp_zero", "Sb.C20.lerp_one", "Sb.C20.lerp_between", "Sb.C20.lerpChanF_close", "Sb.C20.roundF32_error", "Sb.C20.rhe_error", "Sb.C20.rgbw_reference_le", "Sb.C20.refParams_div_nonneg",
             "Sb.C20.conv_step_good", "Sb.C20.conv_history_good", "Sb.C20.conv_history_contract", "Sb.C20.conv_temperature_fresh",
             "Sb.C20.scaleUpdate_spec", "Sb.C20.newScale_least", "Sb.C20.quotient_above", "Sb.C20.repr_gap", "Sb.C20.bump_table",
             "Sb.Proofs.roundF32_mono", "Sb.Proofs.roundF32_natCast"]
